@@ -117,6 +117,11 @@ def val(v):
         return None
     if isinstance(v, int) and not isinstance(v, bool):
         return v
+    from modelx.core.base import Interface
+    if isinstance(v, Interface):
+        # a reference bound to an object of the model: kind and identity (no name: a relative reference is re-bound
+        # in every sub space, and names change)
+        return "?iface:%s:%x" % (kind_of(v, None), id(v._impl) % 0xffff)
     return "?" + repr(v)[:40]
 
 
@@ -229,6 +234,18 @@ def find(m, path):
         raise NoSuchSpace(".".join(path))
 
 
+def wide_val(m, v):
+    """["iface", path] / ["icells", path, name]: a space / cells of the model as a reference value"""
+    if isinstance(v, list) and v and v[0] == "iface":
+        return find(m, v[1])
+    if isinstance(v, list) and v and v[0] == "icells":
+        try:
+            return find(m, v[1]).cells[v[2]]
+        except KeyError:
+            return find(m, v[1])
+    return v
+
+
 def do_op(m, op):
     k = op[0]
     if k == "NewSpace":
@@ -258,8 +275,12 @@ def do_op(m, op):
     elif k == "RemoveBases":
         s = find(m, op[1])
         s.remove_bases(*[find(m, b) for b in op[2]])
+    elif k == "NewSpaceRefs":
+        parent = find(m, op[1])
+        bases = [find(m, b) for b in op[3]]
+        parent.new_space(op[2], bases=bases, refs={n: wide_val(m, v) for n, v in op[4]})
     elif k == "SetAttr":
-        setattr(find(m, op[1]), op[2], op[3])
+        setattr(find(m, op[1]), op[2], wide_val(m, op[3]))
     elif k == "DelAttr":
         delattr(find(m, op[1]), op[2])
     elif k == "SetParams":
